@@ -24,3 +24,8 @@ func VerifC22Push(e *Exporter, w io.Writer, format string) error {
 func VerifC22SetPrefixes(graphite, statsd, collectd string) {
 	*graphitePrefix, *statsdPrefix, *collectdPrefix = graphite, statsd, collectd
 }
+
+// VerifC22SetTargets sets the three push-target flags (read by New).
+func VerifC22SetTargets(collectdSocket, graphiteHP, statsdHP string) {
+	*collectdSocketPath, *graphiteHostPort, *statsdHostPort = collectdSocket, graphiteHP, statsdHP
+}
